@@ -3,7 +3,7 @@
 import json
 
 import stages
-from stages import calls, events_trace, mc, product, streams, tla_set
+from stages import calls, events_trace, guard, harness_calls, mc, product, streams, tla_set
 from vlib import log
 
 ALLK = ["std", "lf", "ll"]
@@ -116,6 +116,16 @@ def c05(ck, thorough):
     calls(ck, "c05_prefilter", "prefilter", scale=4 if thorough else 1, mks=ALLK, an="both", flav="all")
 
 
+def c06(ck, thorough):
+    """packed searchers"""
+    mc(ck, "ACPacked", "c06_packed",
+       {"Sigma": tla_set([0, 1, 2]), "NybbleBase": 2, "MaxPats": 2, "MaxPatLen": 3 if thorough else 2,
+        "MaxHay": 6 if thorough else 4, "Vs": tla_set([2, 4]), "Bs": tla_set([2, 3] if thorough else [2]),
+        "Kinds": tla_set(["lf", "ll"])},
+       ["PackedCorrect", "LoadInBounds", "MatchInSpan", "Coverage"], view="View")
+    calls(ck, "c06_packed", "all", scale=4 if thorough else 1, sub="packed")
+
+
 def c07(ck, thorough):
     """stream search = in-memory search for every read schedule and capacity"""
     mc(ck, "ACStream", "c07_stream", stream_consts(thorough, False), STREAM_INV)
@@ -159,6 +169,50 @@ def c14(ck, thorough):
           flav="find,early,is_match")
     calls(ck, "c14_rand", "rand", scale=10 if thorough else 2, mks=ALLK, an="both",
           flav="find,early,is_match")
+
+
+def c15(ck, thorough):
+    """no out-of-bounds access, no panic"""
+    mc(ck, "ACPacked", "c15_packed",
+       {"Sigma": tla_set([0, 1, 2]), "NybbleBase": 2, "MaxPats": 2, "MaxPatLen": 2,
+        "MaxHay": 5 if thorough else 4, "Vs": tla_set([2, 4]), "Bs": tla_set([2]),
+        "Kinds": tla_set(["lf"])},
+       ["LoadInBounds", "MatchInSpan", "Coverage", "PackedCorrect"], view="View")
+    guard(ck, "c15", scale=3 if thorough else 1)
+    ck.extra["rule"] = ("every search/replace API and every packed variant on haystacks of length 0..104 placed flush "
+                        "against a PROT_NONE page on the right and on the left, random and pattern-truncating contents")
+    ck.assumptions.append("an out-of-bounds read of >= 1 byte beyond either end of the haystack faults; reads "
+                          "that stay inside the two mapped pages but outside the slice are not observable")
+
+
+def c17(ck, thorough):
+    """purity / sharing across threads"""
+    mc(ck, "ACShared", "c17_shared",
+       {"Clients": "{1, 2, 3}" if thorough else "{1, 2}", "Sigma": tla_set([1, 2]), "MaxPatLen": 2,
+        "MaxHay": 2, "Kinds": tla_set(ALLK), "CallsPerClient": 2 if thorough else 1},
+       ["Pure", "Deterministic"], ["Immutable"])
+    harness_calls(ck, "c17_threads", "threads", scale=4 if thorough else 1, shards=6, what="threads")
+    ck.extra["rule"] = ("2..16 real threads share one searcher (and clones), start on a barrier and run shuffled call "
+                        "sequences; every result and the searcher's full Debug dump before/after are validated by TLC; "
+                        "the same calls are repeated sequentially in another order interleaved with unrelated searches")
+    ck.assumptions.append("schedules are whatever the OS produced on this run; absence of interior mutability in the "
+                          "source is not proved (a textual scan is recorded as an observation only)")
+    import subprocess
+    scan = subprocess.run("grep -rnE 'Cell<|RefCell|Atomic|Mutex|RwLock|static mut|thread_local' /repo/src "
+                          "--include=*.rs | grep -v '^/repo/src/verif.rs' | grep -v 'cfg(all(aho_corasick_verif' | wc -l",
+                          shell=True, stdout=subprocess.PIPE, text=True).stdout.strip()
+    ck.extra["interior_mutability_scan_hits_outside_hooks"] = int(scan or 0)
+
+
+def c20(ck, thorough):
+    """building and metadata"""
+    events_trace(ck, "c20_build", "build", ["--scale", 2 if thorough else 1], "TraceApi", "TraceApiBuild.cfg",
+                 "build", shards=8, sig_fields=("shape", "req", "mk", "sk"), distinct_drop=())
+    harness_calls(ck, "c20_ids", "ids", scale=2 if thorough else 1, shards=8, what="pattern-ids")
+    product(ck, "c20", ["f22", "shapes"], full=False, shards=2, mks=ALLK)
+    ck.extra["rule"] = ("shape-diverse collections (none, only-empty, duplicates, all 256 bytes, 256-way fan-out, 300-byte "
+                        "pattern, 100/101 patterns, nested, random; thorough: 3000x60 and 500x300) x requested kind x "
+                        "match kind x start kind x 4 option combinations; metadata and requested kind validated by TLC")
 
 
 def c16(ck, thorough):
@@ -244,6 +298,7 @@ CHECKS = {
     "C03": (c03, "model_checking"),
     "C04": (c04, "model_checking"),
     "C05": (c05, "model_checking"),
+    "C06": (c06, "model_checking"),
     "C07": (c07, "model_checking"),
     "C08": (c08, "model_checking"),
     "C09": (c09, "model_checking"),
@@ -253,7 +308,10 @@ CHECKS = {
     "C13": (c13, "model_checking"),
     "C19": (c19, "model_checking"),
     "C14": (c14, "model_checking"),
+    "C15": (c15, "exploration"),
     "C16": (c16, "model_checking"),
+    "C17": (c17, "exploration"),
+    "C20": (c20, "exploration"),
     "C18": (c18, "model_checking"),
 }
 
